@@ -90,6 +90,10 @@ Verdict(t) ==
   \* an atom whose surface some ray of the transform grid crosses more than once (or grazes) has no unique radial description:
   \* which crossing the root-finder reports may depend on rounding, so differences between poses say nothing (sampled by the
   \* harness on the base pose); raised poses and ill-formed words are still judged
+  \* a surface that leaves the search bounds in some direction (sampled densely by the harness when a pose reported it): whether a
+  \* pose notices depends on where its grid rays point, so "raised in this pose only" says nothing; other clauses still apply
+  IF t.kind = "stockholder" /\ ~t.inside /\ bad # {} /\ (\A k \in bad : PoseVerdict(t, k) = "REJECT Raised:stockholder")
+     THEN "OOD surface-not-inside-bounds" ELSE
   IF t.kind = "mol-atomic" /\ ~t.star /\ bad # {}
      /\ (\A k \in bad : PoseVerdict(t, k) \in {"REJECT PoseInvariance:rotation:mol-atomic", "REJECT PoseInvariance:translation-permutation:mol-atomic"})
      THEN "OOD surface-not-star-shaped" ELSE
